@@ -22,6 +22,9 @@ CFG = dict(
         seq("mt_tsan_vector", "tsan", "c05_mt.c", 64, 6400, params={0: 300}, env=VEC, wrap=True, leak=False),
         seq("mt_tsan_portable", "tsan", "c05_mt.c", 64, 6400, params={0: 300}, env=PORT, wrap=True, leak=False),
         seq("mt_rel_vector", "rel", "c05_mt.c", 64, 6400, params={0: 2000}, env=VEC, leak=False),
+        # one text of more than 4 GiB decoded in one call on each CPU path (one process; about 3.3 GiB of real memory)
+        seq("giant_vector", "rel", "c05_giant.c", 1, 2, env=VEC, leak=False, nprocs=1, per_proc_timeout=1800),
+        seq("giant_portable", "rel", "c05_giant.c", 1, 2, env=PORT, leak=False, nprocs=1, per_proc_timeout=1800),
     ],
     rule=("case = one input (derived from (seed, case index) only, identical in all four stages) pushed through a family of "
           "codec calls. Case indices below 635 are the exhaustive sweeps: every byte value at each of the last 4 positions after "
@@ -57,7 +60,7 @@ CFG = dict(
         "b64_decode_reject_pad_bits": 100, "b64_decode_reject_pad_position": 100, "b64_decode_reject_alphabet": 100,
         "b64_encode_appended_at_len": 100, "short_buffer_refused_nothing_written": 100, "hex_decode_odd_length": 100,
         "utf8_split_inside_codepoint": 100, "b64_input_4090_4100": 40,
-        "mt_codec_calls_concurrent": 100000, "mt_four_or_more_threads": 30,
+        "mt_codec_calls_concurrent": 100000, "mt_four_or_more_threads": 30, "base64_texts_above_4GiB_decoded": 2,
     }},
     post=c05_codecs.post,
 )
